@@ -126,4 +126,27 @@ def handleS0 (op : String) (a : List String) : String :=
     if b.size ≠ 200 then "bad-op" else "ok " ++ hexOf (Voi.Spec.keccakF1600Bytes b)
   | _, _ => "bad-op"
 
+
+/-- Stream M2: one whole transcript history per request (`m.script label msg… n` = NewTranscript(label); AppendMessage("a", msgᵢ)
+for every i; ExtractBytes("c", n)), so that the requests are independent of each other and can be executed from many
+goroutines at once (used to look for interference between concurrently advancing transcripts). -/
+def handleM2 (op : String) (a : List String) : String :=
+  let hexL (s : String) : List UInt8 := bytesToList (ofHex! s)
+  match op, a with
+  | "m.script", label :: rest =>
+    match rest.getLast? with
+    | none => "bad-op"
+    | some n =>
+      match newTranscript (hexL label) with
+      | .error e => merlinErrReply e
+      | .ok t =>
+        let r := rest.dropLast.foldl (fun (acc : Except MErr Transcript) m => acc.bind fun t => appendMessage t [0x61] (hexL m)) (.ok t)
+        match r with
+        | .error e => merlinErrReply e
+        | .ok t =>
+          match extractBytes t [0x63] n.toNat! with
+          | .ok (_, out) => "ok " ++ hexOf (listToBytes out)
+          | .error e => merlinErrReply e
+  | _, _ => "bad-op"
+
 end Voi.Drv
